@@ -23,11 +23,13 @@ LEVEL_NOTE = ("Degenerate (concrete documents after the solver's choices); the e
 BUDGET_S = {"quick": 200, "thorough": 1200}
 EXPLANATION = "pformat(body of W(X)) == pformat(X at top level) after Parser.parse; links after W resolve after the transform pipeline."
 ASSUMPTIONS = ["'usable from the rest of the document' is judged from a later directive body (link reference definitions are resolved when text is tokenised; top-level text after the wrapper was tokenised before the wrapper was rendered)", "docutils pformat() is a faithful structural rendering (it omits line/source, which C04 covers)"]
-OUTSIDE = ["headings inside wrappers (C05)", "directives other than admonitions", "inline substitutions"]
+OUTSIDE = ["headings inside wrappers (C05)", "directives other than admonitions", "substitutions other than the two configured ones (one used twice in a value, one chained)"]
 STUBS = ["file system: temporary directory created at run time for the included file"]
 NONTRIVIAL_RULE = "paths whose X contains a definition (link reference, target or footnote) or a nested directive"
 
-XK = ["para", "emph", "list", "quote", "code", "refdef-use", "target-link", "footnote", "nested-note", "two-paras", "html", "hardbreak", "tabs", "rule-in-body", "indented-code-first", "inline-spaces", "dashes-line", "formfeed", "all-indented", "code-blank-spaces"]
+XK = ["para", "emph", "list", "quote", "code", "refdef-use", "target-link", "footnote", "nested-note", "two-paras", "html", "hardbreak", "tabs", "rule-in-body", "indented-code-first", "inline-spaces", "dashes-line", "formfeed", "all-indented", "code-blank-spaces", "subst-twice", "subst-chain-twice"]
+# substitutions configured globally for every run, so that an X may use them at top level and inside every wrapper (incl. as part of another substitution's value)
+SUBS = {"nm": "*World*", "gr": "Hi {{ nm }} and {{ nm }}"}
 
 
 def setup():
@@ -55,6 +57,8 @@ def x_lines(kind, n):
         "dashes-line": ["X%d para" % n, "", "second para", "-- a line that starts with dashes inside a paragraph", "continues", "", "last para"],
         "rule-in-body": ["X%d before the rule" % n, "", "---", "", "after the rule", "", "-----"],
         "indented-code-first": ["    code first %d" % n, "      more code", "", "X%d para after code" % n],
+        "subst-twice": ["X%d {{ nm }} and again {{ nm }} end" % n],  # the same substitution used twice in one value
+        "subst-chain-twice": ["X%d {{ gr }} then {{ gr }}" % n, "", "{{ nm }}"],  # a substitution whose value uses another one twice, itself used twice, then the inner one as a block
         "tabs": ["X%d a\tb `c\td`" % n, "", "\tcode\tvia tab", "", "- item\ttab"],
     }[kind]
 
@@ -104,6 +108,7 @@ def parse_only(text, extra=None, real=False, source="src.md"):
     settings.halt_level = 6
     settings.warning_stream = io.StringIO()
     settings.myst_enable_extensions = ["colon_fence", "substitution"]
+    settings.myst_substitutions = dict(SUBS)
     for k, v in (extra or {}).items():
         setattr(settings, k, v)
     d = new_document(source, settings)
@@ -164,26 +169,26 @@ def run_case(kinds, w, real=False):
             text = "\n".join(["```{include} inc.md", ":start-after: <!-- snip -->", ":end-before: <!-- snip -->", "```"] + after) + "\n"
             src = os.path.join(d, "src.md")
             doc = parse_only(text, real=real, source=src)
-            full, warn = CR.publish(text, {"myst_enable_extensions": ["colon_fence", "substitution"], "report_level": 2}, real=real, source=src)
+            full, warn = CR.publish(text, {"myst_enable_extensions": ["colon_fence", "substitution"], "myst_substitutions": dict(SUBS), "report_level": 2}, real=real, source=src)
     elif w == "include":
         with tempfile.TemporaryDirectory(prefix="symx_c06_") as d:
             open(os.path.join(d, "inc.md"), "w").write("\n".join(xl) + "\n")
             text = "\n".join(["```{include} inc.md", "```"] + after) + "\n"
             src = os.path.join(d, "src.md")
             doc = parse_only(text, real=real, source=src)
-            full, warn = CR.publish(text, {"myst_enable_extensions": ["colon_fence", "substitution"], "report_level": 2}, real=real, source=src)
+            full, warn = CR.publish(text, {"myst_enable_extensions": ["colon_fence", "substitution"], "myst_substitutions": dict(SUBS), "report_level": 2}, real=real, source=src)
     elif w == "substitution":
         import yaml
 
         fm = yaml.safe_dump({"myst": {"substitutions": {"xval": "\n".join(xl) + "\n"}}})
         text = "---\n" + fm + "---\n\n{{ xval }}\n" + "\n".join(after) + "\n"
         doc = parse_only(text, real=real)
-        full, warn = CR.publish(text, {"myst_enable_extensions": ["colon_fence", "substitution"], "report_level": 2}, real=real)
+        full, warn = CR.publish(text, {"myst_enable_extensions": ["colon_fence", "substitution"], "myst_substitutions": dict(SUBS), "report_level": 2}, real=real)
     else:
         lines, _ = wrap(w, xl)
         text = "\n".join(lines + after) + "\n"
         doc = parse_only(text, real=real)
-        full, warn = CR.publish(text, {"myst_enable_extensions": ["colon_fence", "substitution"], "report_level": 2}, real=real)
+        full, warn = CR.publish(text, {"myst_enable_extensions": ["colon_fence", "substitution"], "myst_substitutions": dict(SUBS), "report_level": 2}, real=real)
     body = body_of(doc, w)
     if body is None:
         return exp, None, True, "wrapper structure not found in %r" % text
